@@ -31,7 +31,7 @@ import itertools, json, os
 from vlib import treegen as tg, paths
 from checks import c06
 
-LEAN_TARGETS = ["LyModel.Props.C13", "LyModel.Props.C13Merge"]
+LEAN_TARGETS = ["LyModel.Props.C13", "LyModel.Props.C13Merge", "LyModel.Props.C13RevUO"]
 AUDIT = "Audit/C13.lean"
 GENERATED = ["Diff13"]
 HARNESS = "api_diff13"
